@@ -54,7 +54,11 @@ InstKeys(typ) ==
     [] typ = "SVD" -> {[m |-> s[1], n |-> s[2], kind |-> kd] : s \in SvdShapes, kd \in {1, 2}}
     [] typ = "EigenSym" -> {[m |-> n, n |-> n, kind |-> 0] : n \in {1, 2, 4}}
     [] typ = "Eigen" -> {[m |-> n, n |-> n, kind |-> kd] : n \in {1, 2, 4}, kd \in {1, 2, 3}}
+    \* HOGSVD: kind 0 = the second matrix has m + 1 rows; kind > 0 = it has `kind` rows (first matrix shorter than the
+    \* second by more than a power-of-two size class of the n x rows workspace, and the reverse order)
     [] typ = "HOGSVD" -> {[m |-> s[1], n |-> s[2], kind |-> 0] : s \in {<<2, 2>>, <<3, 2>>, <<4, 3>>, <<3, 1>>}}
+                         \cup {[m |-> s[1], n |-> s[2], kind |-> s[3]] :
+                                 s \in {<<3, 2, 5>>, <<5, 2, 3>>, <<2, 2, 5>>, <<4, 3, 7>>, <<7, 3, 4>>, <<1, 1, 3>>, <<3, 1, 6>>, <<6, 1, 2>>}}
 
 \* Cholesky updates: x with entries in -1..1 (not zero), alpha = 2;  extension column w, corner k large enough
 UpdVec(n, t) == [i \in 1..n |-> IF i = 1 + (t % n) THEN 1 ELSE ((i + t + Seed) % 3) - 1]
@@ -67,21 +71,46 @@ LuY(n, t) == [i \in 1..n |-> IF i = 1 + ((t + 1) % n) THEN -1 ELSE IF i = 1 + (t
 RowDominant(A) == \A i \in 1..Len(A) : 2 * Abs(A[i][i]) > SumSeq([j \in 1..Len(A) |-> Abs(A[i][j])])
 ColDominant(A) == RowDominant(Transp(A))
 
-\* HOGSVD: two tall full-rank matrices with the same number of columns
+\* HOGSVD: two tall full-rank matrices with the same number of columns and (in general) different numbers of rows
+HogRows2(m, kind) == IF kind = 0 THEN m + 1 ELSE kind
 HogMat(m, n, t, q) == MatAdd(Fam(m, n, t + q), [i \in 1..m |-> [j \in 1..n |-> IF i = j THEN 4 + q ELSE 0]])
-HogRec(m, n, t) ==
-  LET M1 == HogMat(m, n, t, 0)  M2 == HogMat(m + 1, n, t, 1) IN
+\* Pool probe.  Factorize borrows workspaces (n x n, n x max rows) from the size-stratified pools that all of mat shares
+\* and must put back what the pools expect.  What can be observed through the public API: unrelated operations that
+\* borrow workspaces of 4, 8, 16 and 32 elements - the largest request of each of the size classes a HOGSVD of these
+\* shapes touches - right after the factorization still return their results, which the specification states exactly:
+\*   "pow"        X = A^e for an integer 4 x 4 matrix (three 16-element workspaces)
+\*   "mulself"    X = X A, the receiver is an operand (an r x c workspace)
+\*   "solveself"  X = U^-1 X for a unit upper triangular integer U: U^-1 = Adj(U) is an integer matrix and the
+\*                elimination is exact; the receiver is the right hand side (a 4 x k workspace)
+ProbeA(t) == [i \in 1..4 |-> [j \in 1..4 |-> (((i * (t + 1) + j * ((Seed % 5) + 2) + i * j + t) % 5) - 2)]]
+ProbeU(t) == [i \in 1..4 |-> [j \in 1..4 |-> IF i = j THEN 1 ELSE IF i < j THEN ((i + 2 * j + t + Seed) % 3) - 1 ELSE 0]]
+ProbeOp(op, a, x, e, want) == [op |-> op, a |-> a, x |-> x, e |-> e, want |-> want]
+HogProbe(t) ==
+  <<ProbeOp("pow", ProbeA(t), <<>>, 3, Pow3M(ProbeA(t)))>>
+  \o [q \in 1..4 |-> LET sh == <<<<2, 2>>, <<2, 4>>, <<4, 4>>, <<8, 4>>>>[q]
+                          X == Fam(sh[1], sh[2], t + q)  A == Fam(sh[2], sh[2], t + q + 1)
+                      IN ProbeOp("mulself", A, X, 1, MatMul(X, A))]
+  \o [q \in 1..4 |-> LET kk == <<1, 2, 4, 8>>[q]  B == Fam(4, kk, t + q + 2)
+                      IN ProbeOp("solveself", ProbeU(t), B, 1, MatMul(Adj(ProbeU(t)), B))]
+ProbeExact(t) == /\ Det(ProbeU(t)) = 1
+                 /\ \A q \in 1..Len(HogProbe(t)) : LET o == HogProbe(t)[q] IN
+                       /\ (o.op = "solveself") => MatMul(o.a, o.want) = o.x          \* U want = b
+                       /\ (o.op = "pow") => o.want = MatMul(o.a, MatMul(o.a, o.a))
+                       /\ MaxAbs(o.want) < 1048576                                  \* every intermediate is exact in float64
+HogRec(m, n, kind, t) ==
+  LET M1 == HogMat(m, n, t, 0)  M2 == HogMat(HogRows2(m, kind), n, t, 1) IN
   [k |-> "hog", m |-> m, n |-> n, t |-> t, mats |-> <<M1, M2>>,
-   tolA |-> 4096 * (m + 1) * (Norm1(M1) + Norm1(M2) + 1), unitExp |-> XUnit]
-HogOK(m, n, t) == Det(MatMul(Transp(HogMat(m, n, t, 0)), HogMat(m, n, t, 0))) # 0
-                  /\ Det(MatMul(Transp(HogMat(m + 1, n, t, 1)), HogMat(m + 1, n, t, 1))) # 0
+   tolA |-> 4096 * Max2(m, HogRows2(m, kind)) * (Norm1(M1) + Norm1(M2) + 1), unitExp |-> XUnit,
+   probe |-> HogProbe(t)]
+HogOK(m, n, kind, t) == Det(MatMul(Transp(HogMat(m, n, t, 0)), HogMat(m, n, t, 0))) # 0
+                        /\ Det(MatMul(Transp(HogMat(HogRows2(m, kind), n, t, 1)), HogMat(HogRows2(m, kind), n, t, 1))) # 0
 
 InstOK(typ, key, t) ==
   CASE typ \in {"QR", "LQ", "LU", "Solve"} -> LsOK(Fam(key.m, key.n, t))
     [] typ = "BandCholesky" -> key.kind < key.n
     [] typ = "LUupd" -> LET A == BandOf(key.n, key.kind, t) IN
                           ColDominant(A) /\ ColDominant(MatAdd(A, Outer(LuX(key.n, t), LuY(key.n, t))))
-    [] typ = "HOGSVD" -> HogOK(key.m, key.n, t)
+    [] typ = "HOGSVD" -> HogOK(key.m, key.n, key.kind, t)
     [] OTHER -> TRUE
 
 Planted0(typ, key, t) ==
@@ -98,7 +127,7 @@ Planted0(typ, key, t) ==
                                                            tolUpd |-> 256 * 64 * key.n * (Norm1(Au) + 1)]
     [] typ = "SVD" -> SvdRec(key.m, key.n, t)
     [] typ \in {"EigenSym", "Eigen"} -> EigRec(key.n, t)
-    [] typ = "HOGSVD" -> HogRec(key.m, key.n, t)
+    [] typ = "HOGSVD" -> HogRec(key.m, key.n, key.kind, t)
 InstRec(typ, key, t) == [k |-> "inst", typ |-> typ, key |-> [m |-> key.m, n |-> key.n, kind |-> key.kind, t |-> t],
                          p |-> Planted0(typ, key, t)]
 
@@ -116,6 +145,7 @@ InstTheorems(typ, key, t) ==
     [] typ \in {"BandCholesky", "Tridiag", "LUupd"} -> SpdPlanted(BandOf(key.n, key.kind, t))
     [] typ = "SVD" -> SvdPlanted(key.m, key.n, t)
     [] typ \in {"EigenSym", "Eigen"} -> EigPlanted(key.n, t)
+    [] typ = "HOGSVD" -> ProbeExact(t)
     [] OTHER -> TRUE
 
 (********************************* calls ************************************)
@@ -133,8 +163,8 @@ Shape(typ, meth, m, n, kind) ==
     [] meth = "Values" /\ typ = "SVD" -> <<Min2(m, n), 1>>
     [] meth \in {"VectorsTo", "LeftVectorsTo"} -> <<n, n>>
     [] meth = "Values" /\ typ \in {"EigenSym", "Eigen", "HOGSVD"} -> <<n, 1>>
-    [] meth = "UTo0" -> <<m, n>>             \* HOGSVD: U_0 is m x n, U_1 is (m+1) x n, V is n x n
-    [] meth = "UTo1" -> <<m + 1, n>>
+    [] meth = "UTo0" -> <<m, n>>             \* HOGSVD: U_0 is m x n, U_1 is HogRows2 x n, V is n x n
+    [] meth = "UTo1" -> <<HogRows2(m, kind), n>>
     [] meth = "VTo" /\ typ = "HOGSVD" -> <<n, n>>
     [] meth \in {"Values0", "Values1"} -> <<n, 1>>
     \* solves: X has the rows of the unknown and the columns of b (2 right hand sides, or 1 for the Vec forms)
